@@ -3,6 +3,7 @@ import SqliteDissect.Model.Tree
 import SqliteDissect.Model.Header
 import SqliteDissect.Spec.CellFmt
 import SqliteDissect.Spec.HeaderFmt
+import SqliteDissect.Spec.CellWrite
 
 namespace Driver.Arith
 open SqliteDissect SqliteDissect.Model Driver
@@ -27,6 +28,23 @@ def handle : List String → Option String
       let b := Spec.localSize u mx p
       let ov := p - b
       pure (if ov = 0 then s!"ok {b} 0 0 0" else s!"ok {b} 1 {Spec.overflowPages u ov} {Spec.lastOverflowFill u ov}")
+  | ["spec.cell", kind, u, rowid, first, cols] => do
+      -- cols: `st:hex;st:hex;…` (`-` for no content, `.` for no columns)
+      let u ← u.toNat?
+      let rowid ← rowid.toInt?
+      let first ← first.toNat?
+      let cs ← (if cols = "." then some [] else (cols.splitOn ";").mapM fun c =>
+        match c.splitOn ":" with
+        | [st, hex] => do
+          let st ← st.toInt?
+          let content ← (if hex = "-" then some [] else parseHex hex)
+          some ({ st, content } : Spec.Col)
+        | _ => none)
+      let payload := Spec.encodeRecord cs
+      let bytes := if kind = "table" then Spec.writeTableLeafCell u rowid payload first
+                   else Spec.writeIndexLeafCell u payload first
+      let mx := if kind = "table" then Spec.maxLeaf u else Spec.maxLocalIndex u
+      pure s!"ok {hexOrDash bytes} {hexOrDash (payload.drop (Spec.localSize u mx payload.length))}"
   | ["ptrmap.plan", d, ps] => do
       let d ← d.toNat?
       let ps ← ps.toNat?
